@@ -18,8 +18,8 @@ SYMS = ["!", "!!", "@", "#", "$$", ".", "-", "_", " ", "  ", "?!"]
 CASED_SYMBOLS = ["Ⓐ", "Ⓩ", "Ⅷ", "Ⅻ", "ⓐ", "ⅷ", "★", "②"]     # circled capitals / Roman numerals: not letters, yet str.lower() changes them
 WALKS = ["1qaz", "qwer", "asdf", "zaq1", "1q2w3e", "qwerty", "1qaz2wsx", "asdfgh"]
 CONTEXT = ["<3", ";p", "#1", "*0*", ":)"]
-EMAILS = ["bob@gmail.com", "alice@yahoo.com", "x@y.org"]
-SITES = ["www.google.com", "http://a.net", "foo.com"]
+EMAILS = ["bob@gmail.com", "alice@yahoo.com", "x@y.org", "bob@yahoo.com.au", "dave@web.com.usa", "me@mail.ru.com"]
+SITES = ["www.google.com", "http://a.net", "foo.com", "www.bbc.org.uk", "x.co.uk", "shop.com.net.org"]
 NONBMP = ["\U0001F600", "\U0001F512"]
 AWKWARD = ["İstanbul", "straße", "ǅ", "K"]     # U+0130, ß, U+01C5, U+212A (flagged)
 TRICKY = ["201x", "19a9", "1q2", "qwe", "#1x", "#12", "No.", "i<3", "2019", "1999x", "x2000", "20201", "12019", "1qa", "qaz1",
